@@ -26,8 +26,8 @@ LEAN_MODULES = ['MpycV.Props.C37']
 LEAN_NAMESPACES = ['MpycV.C37']
 REQUIRED_THEOREMS = ['broadcast_spec', 'index_roundtrip', 'map2_spec', 'map2_inherits', 'map2_zipWith',
                      'matmul_shape', 'matmul_index', 'reshape_spec', 'transpose_involution',
-                     'concatenate_split_roundtrip', 'roll_spec', 'stack_shape_nonneg',
-                     'stack_shape_negative_axis_differs']
+                     'concatenate_split_roundtrip', 'roll_spec', 'stack_shape',
+                     'old_stack_rule_negative_axis_differs']
 RULE = ('case = (np_* operation, secure type in {secint24, secfxp32:16, secfld(p) p in {11,101,2^31-1}, GF(2^8)}, '
         'config in {m=1; m=3 PRSS; m=3 no-PRSS}, seed -> random shapes (<= 3 dims, size <= 24, broadcasting pairs, '
         'zero-size arrays where accepted) and values inside the type bounds); EVERY operation of the table is run under '
@@ -35,7 +35,7 @@ RULE = ('case = (np_* operation, secure type in {secint24, secfxp32:16, secfld(p
         'shapes, values); non-trivial = result has > 1 element or involves broadcasting / an axis argument')
 EXPLANATION = ('NumPy semantics cannot be proved: NumPy is the oracle. Proved (Lean): broadcast_spec, index round trip, '
                'map2 lifts inherit scalar theorems, matmul shape/index, reshape/transpose/concatenate-split/roll index-map '
-               'lemmas, declared np_stack shape = NumPy for axis >= 0 (and a proved counterexample for axis < 0). Validated '
+               'lemmas, declared np_stack shape = NumPy for every valid axis (and a proved counterexample for the pre-fix rule). Validated '
                'only (differential, every run): each np_* protocol vs elementwise secure scalars, vs NumPy, vs the Lean '
                'driver for declared shapes / gather maps; array input/output (np_random_split / np_recombine / PRSS arrays) '
                'vs the list-based path.')
